@@ -347,6 +347,12 @@ func (i Interval) Expanded(margin float64) Interval {
 	if result.Lo <= -math.Pi {
 		result.Lo = math.Pi
 	}
+	// The test above can miss an expansion that reaches all the way round by
+	// a rounding error: the two endpoints then meet or cross and the result
+	// would be a tiny interval instead of (nearly) the whole circle.
+	if margin >= 0 && !result.ContainsInterval(i) {
+		return FullInterval()
+	}
 	return result
 }
 
